@@ -72,8 +72,9 @@ fn scenario() -> Scenario {
             cert_fault: None,
             versions: vec![Version { number: 1, this_off: -600, next_off: 86400, crl_next_off: 86400, ee_after_off: 86400, objs: vec![Obj { kind: ObjKind::Roa { extra: 1, maxlen_delta: 0, v6: false }, not_after: 86400, fault: None }], fault: None }],
             extra_res: None,
+            ta_alt: vec![],
         }],
-        steps: vec![Step { publish: vec![0], fail_modules: vec![], offline: false, stale: None }],
+        steps: vec![Step { publish: vec![0], fail_modules: vec![], offline: false, stale: None, foreign_tal_key: vec![], ta_serve: vec![] }],
     }
 }
 
@@ -125,6 +126,9 @@ fn prop(c: &Case, info: &mut CaseInfo) -> Verdict {
     for (r, offers) in c.runs.iter().enumerate() {
         // --- servers
         world.publish(&sc.steps[0]);
+        // `publish` maintains the scenario's default TAL and trust anchor file; this leg uses its own
+        std::fs::write(world.dir.path().join("tals").join("tal0.tal"), gen::tal_text(&uris, sc.cas[0].key)).unwrap();
+        let _ = std::fs::remove_file(world.srv().join(host(0)).join("repo").join("ta0.cer"));
         for i in 0..n {
             let o = offers[i];
             if c.https[i] {
